@@ -202,6 +202,14 @@ class PyFunc:
         self.name = name
 
 
+class MockObj:
+    """A stand-in for an external object (e.g. a wave.Wave_read): attribute name -> value / PyFunc."""
+
+    def __init__(self, attrs, name="<mock>"):
+        self.attrs = attrs
+        self.name = name
+
+
 class ClassVal:
     def __init__(self, cls: ClassInfo):
         self.cls = cls
@@ -701,7 +709,7 @@ class Interp:
             if v.kind == "var":
                 return True
             raise Undecided("truth value of a symbolic string")
-        if isinstance(v, (ObjVal, FuncVal, ClassVal, ModuleVal, Builtin, PyFunc)):
+        if isinstance(v, (ObjVal, FuncVal, ClassVal, ModuleVal, Builtin, PyFunc, MockObj)):
             return True
         raise Undecided("truth value of %r" % (v,))
 
@@ -1075,7 +1083,7 @@ class Interp:
         if isinstance(v, (int, float)):
             return Lin.num(Fraction(str(v)) if isinstance(v, float) else v)
         if isinstance(v, bytes):
-            return Opaque("bytes")
+            return Lst([Lin.num(b) for b in v])  # byte strings are modelled as lists
         raise Undecided("constant %r" % (v,))
 
     def module_of(self, env) -> ModuleInfo:
@@ -1141,6 +1149,10 @@ class Interp:
             m = c.lookup(attr)
             if m is not None:
                 return FuncVal(m, self_obj=base if m.is_classmethod else None)
+            raise PyRaise("AttributeError", node)
+        if isinstance(base, MockObj):
+            if attr in base.attrs:
+                return base.attrs[attr]
             raise PyRaise("AttributeError", node)
         if isinstance(base, ModuleVal):
             if base.mod is not None:
